@@ -170,6 +170,11 @@ func replicate(c *execdrv.Chain, B *node.Node, ht *height, remainder bool) bool 
 // Returns false when C cannot get past this height.
 func serveAndSync(c *execdrv.Chain, A, C *node.Node, ht *height) bool {
 	o := c.O
+	// read-only explorer traffic on the serving node right before the block request is answered
+	traffic := ""
+	if explorerBeforeServe != nil {
+		traffic = explorerBeforeServe(c, A, ht.h)
+	}
 	wire, err := A.Serve(ht.h)
 	if err != nil {
 		o.Fail("C11:archive-block-does-not-revalidate", "the archive cannot serve a committed height: "+err.Error(), map[string]any{"case": o.CurCase(), "height": ht.h})
@@ -186,6 +191,13 @@ func serveAndSync(c *execdrv.Chain, A, C *node.Node, ht *height) bool {
 		panic(e)
 	}
 	same := bytes.Equal(served.Block, ht.p.Block)
+	if !same && traffic != "" && len(sblk.Transactions) != len(orig.Transactions) {
+		// the same archive serves the certified bytes when it is not queried (every other scenario): say so
+		o.Fail("C11:served-block-rejected:after-blocks-page-query",
+			fmt.Sprintf("height %d: node %s answered read-only explorer queries (%s) and then served this height to a syncing peer: the served certificate carries the certified header and block hash but %d transactions; the certified block has %d",
+				ht.h, c.Names[A], traffic, len(sblk.Transactions), len(orig.Transactions)),
+			map[string]any{"case": o.CurCase(), "height": ht.h, "served_by": c.Names[A], "explorer_queries": traffic, "certified_block": hex.EncodeToString(ht.p.Block), "served_block": hex.EncodeToString(served.Block)})
+	}
 	// the op line carries the ORIGINAL transactions; the model decides canonicity itself
 	var hexes []string
 	for _, tx := range orig.Transactions {
@@ -234,6 +246,11 @@ func serveAndSync(c *execdrv.Chain, A, C *node.Node, ht *height) bool {
 			fmt.Sprintf("height %d: the syncing node took height %d from another peer and stored version %s of its commit certificate; the served block's header embeds version %s (same payload, another +2/3 signer set); the served block (bytes equal to the certified block) is handled as %q, expected %q", ht.h, ht.h-1, storedPrev, ht.prevCert, got, want),
 			map[string]any{"case": o.CurCase(), "height": ht.h, "served_by": c.Names[A], "block": hex.EncodeToString(ht.p.Block), "stored_version": storedPrev, "embedded_version": ht.prevCert, "fresh_node_result": got})
 		return false
+	case traffic != "" && (!same || strings.HasPrefix(got, "err:")):
+		o.Fail("C11:served-block-rejected:after-blocks-page-query",
+			fmt.Sprintf("height %d: node %s answered read-only explorer queries (%s) and then served this height; the served block (bytes equal to the certified block: %v) is handled by a fresh node as %q, expected %q", ht.h, c.Names[A], traffic, same, got, want),
+			map[string]any{"case": o.CurCase(), "height": ht.h, "served_by": c.Names[A], "explorer_queries": traffic, "fresh_node_result": got})
+		return false
 	case !same || strings.HasPrefix(got, "err:"):
 		if witness == nil {
 			witness = map[string]any{"case": o.CurCase(), "height": ht.h}
@@ -269,6 +286,11 @@ func runCase(o *drv.Out, ci, nHeights int) {
 	c := execdrv.NewChain(o, net, rng, []int{16, 2, 5})
 	A, B, C := c.NewNode("A", 0), c.NewNode("B", 1%nVal), c.NewNode("C", -1)
 	var hs []*height
+	// every serving node also answers explorer traffic right before each block request
+	explorerBeforeServe = func(c *execdrv.Chain, X *node.Node, h uint64) string {
+		return explorerQueries(c, X, h, []int{1, 1 + rng.Intn(10), 1 + rng.Intn(10)}, rng.Intn(6) == 0)
+	}
+	defer func() { explorerBeforeServe = nil }()
 	var lastIncluded [][]byte
 	cAlive := true
 	for hi := 0; hi < nHeights; hi++ {
@@ -303,6 +325,9 @@ func runCase(o *drv.Out, ci, nHeights int) {
 		}
 	}
 	if atEnd {
+		if ci%4 >= 2 && !c.Restart(A) { // half of these archives serve from a cold block cache
+			return
+		}
 		for _, ht := range hs {
 			if !serveAndSync(c, A, C, ht) {
 				cAlive = false
@@ -439,6 +464,22 @@ func corpusCheckpointHeight(o *drv.Out) {
 			o.Count(fmt.Sprintf("checkpoint-height:%d:accepted-by-proposer-and-replica", h))
 		}
 	}
+	// the serving node restarts (cold block cache; the chain is longer than the 64 entries the cache holds)
+	// and answers explorer traffic between the block requests: one full sweep of the block list first,
+	// then, before every served height, the pages around it
+	if !c.Restart(A) {
+		return
+	}
+	all := []int{1, 2, 3, 4, 5, 6, 7, 8, 9, 10}
+	swept := false
+	explorerBeforeServe = func(c *execdrv.Chain, A *node.Node, h uint64) string {
+		if !swept {
+			swept = true
+			return explorerQueries(c, A, h, all, true)
+		}
+		return explorerQueries(c, A, h, []int{1 + int(h)%10, 1}, false)
+	}
+	defer func() { explorerBeforeServe = nil }()
 	for _, ht := range hs {
 		if !serveAndSync(c, A, C, ht) {
 			return
@@ -450,6 +491,65 @@ func corpusCheckpointHeight(o *drv.Out) {
 	}
 	o.Nontrivial(o.CurCase())
 	o.Sample(fmt.Sprintf("checkpoint-height: heights 1..%d proposed, validated, committed and replayed on a fresh node; the checkpoint of height 100 is the block's final hash", last))
+}
+
+// explorerBeforeServe: when set, serveAndSync lets the serving node answer these read-only explorer
+// queries right before it answers the block request; returns a short description of them.
+var explorerBeforeServe func(c *execdrv.Chain, A *node.Node, h uint64) string
+
+// explorerQueries is the explorer traffic around height h on a node whose newest block is `newest`:
+// block-list pages (Store.GetBlocks, newest first) of the given page sizes — the page whose LAST entry
+// is h+1 when the size divides newest-h (its "took" column reads the header of h, the block below the
+// page), otherwise the page that contains h+1 — then the header of h, the transactions of h and the
+// events of h. sweep: every page of every size instead. No query reads the full block of h by height.
+func explorerQueries(c *execdrv.Chain, A *node.Node, h uint64, sizes []int, sweep bool) string {
+	o := c.O
+	newest := A.Height() - 1
+	var pages []string
+	err := A.Explorer(func(st lib.StoreI) lib.ErrorI {
+		for _, pp := range sizes {
+			first, last := 1, 1
+			if sweep {
+				last = (int(newest) + pp - 1) / pp
+			} else if newest > h {
+				first = (int(newest-h) + pp - 1) / pp
+				last = first
+			}
+			for n := first; n <= last; n++ {
+				page, e := st.GetBlocks(lib.PageParams{PageNumber: n, PerPage: pp})
+				if e != nil {
+					return e
+				}
+				o.Count("explorer:blocks-page")
+				if res, ok := page.Results.(*lib.BlockResults); ok && len(*res) > 0 {
+					lastOnPage := (*res)[len(*res)-1].BlockHeader.Height
+					if lastOnPage == h+1 {
+						o.Count("explorer:blocks-page-ending-right-above-the-served-height")
+					}
+				}
+			}
+			if !sweep {
+				pages = append(pages, fmt.Sprintf("%d/%d", first, pp))
+			}
+		}
+		if _, e := st.GetBlockHeaderByHeight(h); e != nil {
+			return e
+		}
+		if _, e := st.GetTxsByHeight(h, true, lib.PageParams{PageNumber: 1, PerPage: 10}); e != nil {
+			return e
+		}
+		if _, e := st.GetEventsByBlockHeight(h, true, lib.PageParams{PageNumber: 1, PerPage: 10}); e != nil {
+			return e
+		}
+		return nil
+	})
+	if err != nil {
+		o.Fail("C11:explorer-query-failed", fmt.Sprintf("height %d: a read-only explorer query on node %s fails: %s", h, c.Names[A], err.Error()), map[string]any{"case": o.CurCase(), "height": h})
+	}
+	if sweep {
+		return fmt.Sprintf("GetBlocks: every page of page sizes %v; GetBlockHeaderByHeight, GetTxsByHeight, GetEventsByBlockHeight of %d", sizes, h)
+	}
+	return fmt.Sprintf("GetBlocks pages (number/size) %s of %d blocks; GetBlockHeaderByHeight, GetTxsByHeight, GetEventsByBlockHeight of %d", strings.Join(pages, " "), newest, h)
 }
 
 // scenarioClass: set by a corpus scenario whose block is built to exercise one named mechanism.
